@@ -120,7 +120,8 @@ def permute_spec_vectors(spec: dict, perm: list[int], m: int, dtype):
 
 
 def gen_matrix(spec: dict) -> torch.Tensor:
-    """spec: {kind, m, n, seed, scale (float), dtype, rank?}  (always generated in float64 then cast)"""
+    """spec: {kind, m, n, seed, scale (float), dtype, rank?, smax? (target spectral norm)}  (always generated in
+    float64 then cast)"""
     g = torch.Generator().manual_seed(spec["seed"])
     m, n = spec["m"], spec["n"]
     kind = spec.get("kind", "gauss")
@@ -177,4 +178,8 @@ def gen_matrix(spec: dict) -> torch.Tensor:
     else:
         raise KeyError(kind)
     M = M * spec.get("scale", 1.0)
+    if spec.get("smax") is not None:  # rescale so that the LARGEST SINGULAR VALUE is `smax` (zero matrices stay zero)
+        s = float(torch.linalg.matrix_norm(M, ord=2)) if M.numel() else 0.0
+        if s > 0.0:
+            M = M * (spec["smax"] / s)
     return M.to(torch.float64 if spec.get("dtype", "float64") == "float64" else torch.float32)
